@@ -122,7 +122,8 @@ def path(eng, acc, task):
             return
         candidate(eng, acc, task, 'krylov', f'krylov:{alg}:raises:AssertionError', repr(e), inputs)
         return
-    except (ValueError, IndexError, KeyError, TypeError, ZeroDivisionError) as e:
+    except Exception as e:
+        reraise_internal(e)
         import traceback
         tb = traceback.extract_tb(e.__traceback__)[-1]
         candidate(eng, acc, task, 'krylov', f'krylov:{alg}:raises:{type(e).__name__}@{tb.lineno}', repr(e), inputs)
@@ -235,7 +236,8 @@ def path_consumer(eng, acc, task):
             return
         candidate(eng, acc, task, 'krylov', f'krylov:{fn}:raises:AssertionError', repr(e), inputs)
         return
-    except (ValueError, IndexError, KeyError, TypeError, ZeroDivisionError) as e:
+    except Exception as e:
+        reraise_internal(e)
         import traceback
         tb = traceback.extract_tb(e.__traceback__)[-1]
         candidate(eng, acc, task, 'krylov', f'krylov:{fn}:raises:{type(e).__name__}@{tb.lineno}', repr(e), inputs)
